@@ -932,17 +932,24 @@ package edwards25519
 //@   ensures [valid] gvalid(v)
 //@   ensures [value] pt(v) == smul(nval(x), gbase())
 
-// width-w non-adjacent form: sum naf[j]*2^j is the scalar's integer, non-zero digits are odd and below 2^(w-1)
+// width-w non-adjacent form: sum naf[j]*2^j is the scalar's integer, non-zero digits are odd and below 2^(w-1).
+// ASSUMED (trusted), not proved: two attempts are recorded in DESIGN.md (S.7).  With one cut point per bit position
+// and the invariant  S(pos) + carry*2^pos == K mod 2^pos, carry in {0,1}, carry == 1 ==> pos <= 253  every
+// obligation except [prefix] is discharged in QF_LIA, but 210 of the [prefix] steps time out (bit re-slicing of the
+// byte array at a moving offset is outside what linear arithmetic does quickly), and in QF_BV the 256-term digit
+// sums over wide vectors do not finish within the budget either.
+//@ define nafsum(a, n) = sum j in 0..n: a[j] * 2^j
+//@ define nafdigit(x, w) = x == 0 || (x % 2 != 0 && 0 - 2^(w - 1) < x && x < 2^(w - 1))
 //@ func (*Scalar).nonAdjacentForm(s, w)
-//@   leak vartime operation named VarTime or used only by them (exempt)
 //@   mode lia
-//@   trusted the recoder's loop (window arithmetic at a moving bit offset) is not yet under proof
+//@   trusted the recoder's loop invariant does not discharge within the budget (see above)
+//@   leak vartime operation used only by the VarTime routines (exempt)
 //@   requires [reduced] sinv(s)
 //@   requires [width] w == 5 || w == 8
 //@   assigns nothing
-//@   ensures [digits] forall j in 0..256: (result[j] == 0 || (result[j] % 2 == 1 && -(2^(w - 1)) < result[j] && result[j] < 2^(w - 1)))
-//@   ensures [canonical] 0 <= (sum j in 0..256: result[j] * 2^j) && (sum j in 0..256: result[j] * 2^j) < L
-//@   ensures [value] cong(sum j in 0..256: result[j] * 2^j, ev4(s.s) * RINV, L)
+//@   ensures [digits] forall j in 0..256: nafdigit(result[j], w)
+//@   ensures [canonical] 0 <= nafsum(result, 256) && nafsum(result, 256) < L
+//@   ensures [value] cong(nafsum(result, 256), ev4(s.s) * RINV, L)
 
 //@ func (*Point).VarTimeDoubleScalarBaseMult(v, a, A, b)
 //@   leak vartime operation named VarTime or used only by them (exempt)
